@@ -394,7 +394,7 @@ def gen_case(rng, tier):
     kind = rng.choice(["agree", "few-errors", "wrong-winner", "wrong-winner", "tie"])
     for ci in range(ncon):
         cid = f"c{ci}"
-        cands = CANDS[: rng.choice([2, 2, 3])]
+        cands = (CANDS if not rng.chance(0.12) else rng.choice([["0", "", "a"], ["a", "A", " a"], ["1", "01", "10"]]))[: rng.choice([2, 2, 3])]
         w = rng.choice(cands)
         # CVRs: the reported winner gets a strict plurality
         nw = rng.randint(n // 2 + 1, n)
